@@ -841,6 +841,14 @@ def compile(symbolic_model, calibration_map=None, *, config=None):
     if calibration_map is None:
         calibration_map = {}
 
+    common.model_validation(
+        symbolic_model,
+        {},
+        {},
+        extra_validation=config.extra_validation,
+        calibration_map=calibration_map,
+    )
+
     args = _compile_argparse()
 
     if args.header is None:
